@@ -43,12 +43,27 @@ def run(ctx):
         kind = rng.choice(['fnmatch', 'filter', 'ftranslate', 'globmatch', 'globfilter', 'gtranslate', 'fcompile', 'gcompile'])
         fv = rng.choice(fsets_f if kind[0] == 'f' else fsets_g)
         n = rng.choice(names)
+        if rng.random() < 0.04:
+            # a call that raises PatternLimitException (must raise every time, whatever came before)
+            return (rng.choice(['fnmatch_lim', 'filter_lim', 'globmatch_lim']), '{1..20}', 0, '3', isb)
         return (kind, p, fv, n, isb)
 
     def do(call):
+        try:
+            return do_(call)
+        except Exception as e:
+            return 'EXC ' + type(e).__name__
+
+    def do_(call):
         kind, p, fv, n, isb = call
         P = p.encode() if isb else p
         N = n.encode() if isb else n
+        if kind == 'fnmatch_lim':
+            return Fm.fnmatch(N, P, flags=Fm.BRACE, limit=10)
+        if kind == 'filter_lim':
+            return Fm.filter([N], P, flags=Fm.BRACE, limit=10)
+        if kind == 'globmatch_lim':
+            return Gm.globmatch(N, P, flags=Gm.BRACE, limit=10)
         if kind == 'fnmatch':
             return Fm.fnmatch(N, P, flags=fv)
         if kind == 'filter':
@@ -73,7 +88,9 @@ def run(ctx):
     evals = 0
     collide = set()
     for h in range(nh):
-        calls = [make_call() for _ in range(L)]
+        calls = []
+        for _ in range(L):
+            calls.append(calls[-1] if calls and rng.random() < 0.12 else make_call())    # immediate repeats too
         clear_caches()
         warm = [do(c) for c in calls]
         cold = []
@@ -99,7 +116,13 @@ def run(ctx):
 
             def work(k):
                 order = calls[k::8] + calls[:: max(1, 8 - k)]
-                res[k] = [(c, do(c)) for c in order]
+                out_ = []
+                for c in order:
+                    try:
+                        out_.append((c, do(c)))
+                    except Exception as e:      # an exception the sequential run did not raise is a wrong answer too
+                        out_.append((c, 'EXC ' + type(e).__name__))
+                res[k] = out_
             ths = [threading.Thread(target=work, args=(k,)) for k in range(8)]
             for t in ths:
                 t.start()
@@ -193,6 +216,28 @@ def run(ctx):
         if (r1, r1c, r2, r2c) != (False, False, True, True):
             ctx.counterexample('REALPATH globmatch through a path that was a symlink, then a directory: %r (expected False, False, True, True)' % ((r1, r1c, r2, r2c),),
                                {'sequence': 'symlinked dir -> real dir', 'results': [r1, r1c, r2, r2c]})
+        # clones (pickle / copy / deepcopy) of glob matchers behave like the original, also where the answer depends on
+        # the file system and on every flag (FOLLOW, GLOBSTARLONG, MATCHBASE, DOTGLOB, NODIR ...)
+        os.mkdir(os.path.join(tmp, 'cl'))
+        os.makedirs(os.path.join(tmp, 'cl', 'real', 'sub'))
+        for f_ in ('real/a.txt', 'real/sub/b.txt', 'real/.h.txt'):
+            open(os.path.join(tmp, 'cl', f_), 'w').close()
+        os.symlink('real', os.path.join(tmp, 'cl', 'link'))
+        cands = ['real/a.txt', 'link/a.txt', 'link/sub/b.txt', 'real/sub/b.txt', 'real/.h.txt', 'link', 'real/sub', 'missing']
+        for pat in ('**/*.txt', '***/*.txt', '*.txt', '**', 'link/**', ['**/*.txt', '!**/b.txt']):
+            for fx in (0, Gm.FOLLOW, Gm.GLOBSTARLONG, Gm.GLOBSTARLONG | Gm.FOLLOW | Gm.MATCHBASE, Gm.MATCHBASE, Gm.DOTGLOB, Gm.NODIR | Gm.FOLLOW, Gm.NEGATE | Gm.FOLLOW):
+                for real in (Gm.REALPATH, 0):
+                    fl2 = Gm.GLOBSTAR | fx | real
+                    orig = Gm.compile(pat, flags=fl2)
+                    want = [orig.match(c, root_dir=os.path.join(tmp, 'cl')) for c in cands]
+                    for how, clone in (('pickle', lambda m_: pickle.loads(pickle.dumps(m_))), ('copy', copy.copy), ('deepcopy', copy.deepcopy)):
+                        evals += 1
+                        cl = clone(orig)
+                        got = [cl.match(c, root_dir=os.path.join(tmp, 'cl')) for c in cands]
+                        if got != want or cl != orig or hash(cl) != hash(orig) or cl not in {orig}:
+                            ctx.counterexample('%s of glob.compile(%r, %s) does not behave like / compare equal to the original: %r vs %r, ==: %r' % (
+                                how, pat, corr.flag_names(fl2), got, want, cl == orig), {'pattern': pat, 'flags': corr.flag_names(fl2), 'how': how})
+                            break
         # same dir_fd number reused for another tree
         for k, tree in enumerate(('ta', 'tb')):
             os.mkdir(os.path.join(tmp, tree))
